@@ -42,6 +42,7 @@ func init() {
 		Explain: "Decides the last sentence of C02 for every input and schedule — a member's status time only grows and an intent not newer than the applied one changes nothing — as shape facts of the two intent handlers: every write of memberState.statusLTime module-wide is in an intent handler (or initialises a freshly allocated member), every status/time write and every true result there is edge-dominated by msg.LTime > member.statusLTime, stores msg.LTime, and sits in the memberLock write section; plus the transition table, the intent buffer's strict newer-than test, and the push/pull conversion (+1 for synthetic leaves). Cross-replica agreement is not decided.",
 		Run:     runC02,
 		Mutants: []Mutant{
+			{Name: "sync-skips-left-entry-with-equal-time", File: "serf/delegate.go", Func: "func (d *delegate) MergeRemoteState(", Old: "\t\tleftMap[name] = struct{}{}\n", New: "\t\tleftMap[name] = struct{}{}\n\t\tif pp.StatusLTimes[name] == 0 {\n\t\t\tcontinue\n\t\t}\n", Expect: "R6|MergeRemoteState:applies-every-entry"},
 			{Name: "refutation-without-witness", File: "serf/serf.go", Func: "func (s *Serf) handleNodeLeaveIntent(", Old: "\ts.clock.Witness(leaveMsg.LTime)\n", New: "", Expect: "R7"},
 			{Name: "rename-locals", Equivalent: true, Regexp: true, File: "serf/serf.go", Func: "func (s *Serf) handleNodeLeaveIntent(", Old: `\b(member|ok|state)\b`, New: "${1}Renamed"},
 			{Name: "leave-guard-lt", File: "serf/serf.go", Func: "func (s *Serf) handleNodeLeaveIntent(", Old: "if leaveMsg.LTime <= member.statusLTime {", New: "if leaveMsg.LTime < member.statusLTime {", Expect: "R2"},
@@ -257,6 +258,42 @@ func runC02(c *an.Ctx) {
 		nl := len(an.CallsTo(mr, "(*Serf).handleNodeLeaveIntent"))
 		nj := len(an.CallsTo(mr, "(*Serf).handleNodeJoinIntent"))
 		c.Add(nl >= 1 && nj >= 1, "R6", "MergeRemoteState:through-handlers", mr, "synced state is applied through the two intent handlers", "call enumeration")
+		// every synced entry is handed on: nothing but the loops over the received tables decides whether an
+		// entry reaches its handler (whether it is news is the handler's decision, made on the member's state)
+		// what holds before the loops start (message type, decode ok, …) is not a condition on an entry
+		outer := map[string]bool{}
+		first := true
+		an.Instrs(mr, func(in ssa.Instruction) {
+			if _, isRange := in.(*ssa.Range); !isRange {
+				if _, isLen := in.(*ssa.Call); !isLen || !strings.HasPrefix(an.Path(in.(*ssa.Call)), "make:map") {
+					return
+				}
+			}
+			if !first {
+				return
+			}
+			first = false
+			for _, f := range necessaryFacts(mr, in) {
+				outer[f.String()] = true
+			}
+		})
+		for _, call := range an.CallsTo(mr, "(*Serf).handleNodeLeaveIntent", "(*Serf).handleNodeJoinIntent") {
+			extra := ""
+			for _, f := range necessaryFacts(mr, call) {
+				if outer[f.String()] {
+					continue
+				}
+				if (strings.HasPrefix(f.L, "next(range(") && strings.HasSuffix(f.L, "#0")) || strings.HasPrefix(f.L, "(phi:rangeindex@") || strings.HasPrefix(f.L, "phi:rangeindex@") ||
+					(strings.HasPrefix(f.L, "phi@") && f.Op == "<" && strings.HasPrefix(f.R, "len(")) {
+					continue // loop conditions
+				}
+				if an.IsCallTo(call, "(*Serf).handleNodeJoinIntent") && strings.HasPrefix(f.L, "make:map") && strings.HasSuffix(f.L, "#1") && f.Op == "==" && f.R == "c:false" {
+					continue // the join loop skips the names listed as left (they got the leave instead)
+				}
+				extra += f.String() + "; "
+			}
+			c.Add(extra == "", "R6", "MergeRemoteState:applies-every-entry:"+kindOf(call), call, "every entry of the synced tables reaches its intent handler (other conditions: "+extra+")", "necessary-edge enumeration")
+		}
 	}
 }
 
